@@ -93,6 +93,7 @@ Mon21Step(g, e) ==
                       /\ HasItem(e, p[1], p[2])
                       /\ StSub(e, p[1]).en
                       /\ StSub(e, p[1]).st # "Closed"
+                      /\ ~(e.ev = "SetMode" /\ e.sub = p[1] /\ e.item = p[2])        \* no longer reporting all along
                       \* a sample taken while the item queue was already full loses a value by design (C24)
                       /\ ~(sampled(p) /\ g.plen[p] >= StItem(e, p[1], p[2]).qsize)]
       plen1 == [p \in Pairs |-> IF HasItem(e, p[1], p[2]) THEN Len(StItem(e, p[1], p[2]).q) ELSE 0]
